@@ -474,3 +474,46 @@ func (c *Ctx) withConcurrent(fn func()) {
 	c.eng = saved
 	c.proveCache, c.infeasCache, c.proverCache = savedProve, savedInf, savedProver
 }
+
+// ruleMutexFresh (L7): every stack has a mutex of its own.  The value stored
+// into nodeConfig.mtx is a mutex allocated on the spot (or nil), never one
+// read from another configuration: two stacks sharing one non-reentrant mutex
+// deadlock as soon as one operation locks both (Reveal and Defrag lock a parent
+// and then its members; Transfer a source and a destination).
+func (c *Ctx) ruleMutexFresh() {
+	rep := c.rep
+	n := 0
+	for _, fn := range c.p.Funcs {
+		ord := newOrdinal()
+		for _, b := range fn.Blocks {
+			for _, in := range b.Instrs {
+				st, ok := in.(*ssa.Store)
+				if !ok {
+					continue
+				}
+				f, ok := st.Addr.(*ssa.FieldAddr)
+				if !ok || fieldName(f) != "nodeConfig.mtx" {
+					continue
+				}
+				n++
+				construct := ord.next("L7 store nodeConfig.mtx")
+				pos := c.p.instrPos(in)
+				fresh := false
+				switch v := st.Val.(type) {
+				case *ssa.Alloc:
+					fresh = true
+				case *ssa.Const:
+					fresh = v.IsNil()
+				}
+				if fresh {
+					rep.ok("R-LOCK", relName(fn), construct, pos, "the mutex installed is allocated on the spot: no other stack can hold the same one")
+				} else {
+					rep.bad("R-LOCK", relName(fn), construct, pos, "the mutex installed is not a fresh allocation: two stacks sharing one mutex deadlock when one operation locks both (parent and member in Reveal/Defrag)")
+				}
+			}
+		}
+	}
+	if n == 0 {
+		rep.bad("R-LOCK", "package", "L7 store nodeConfig.mtx", "?", "no installation of a mutex found")
+	}
+}
